@@ -109,8 +109,10 @@ func main() {
 	}
 	// the server's log output is not part of the trace
 	lg := logger.GetLogger("harness")
-	lg.Logger.SetOutput(io.Discard)
-	lg.Logger.SetLevel(logrus.PanicLevel)
+	if os.Getenv("VERIF_LOG") == "" { // VERIF_LOG=1: a developer wants to read it
+		lg.Logger.SetOutput(io.Discard)
+		lg.Logger.SetLevel(logrus.PanicLevel)
+	}
 	w := bufio.NewWriterSize(os.Stdout, 1<<16)
 	defer w.Flush()
 	c := &ctx{rng: rand.New(rand.NewSource(*seed)), n: *n, tier: *tier, out: w}
